@@ -1,7 +1,7 @@
 (** Top-level statements for validated tables (no error recovery): the parser accepts exactly the
     sentences of the grammar and returns their derivation tree. *)
 From Coq Require Import List ZArith Bool Arith Lia.
-From LV Require Import LR.Driver LR.Validator LR.Safety LR.ValidatorSpec LR.Soundness LR.Completeness LR.ErrorPos LR.Locality LR.Viable LR.ViableRun.
+From LV Require Import LR.Driver LR.Validator LR.Safety LR.ValidatorSpec LR.Soundness LR.Completeness LR.ErrorPos LR.Locality LR.Viable LR.ViableRun LR.NoPanic LR.Termination.
 Import ListNotations.
 
 Section Main.
@@ -170,6 +170,29 @@ Proof.
   assert (H1 : drive A no_fail F (map IOk w) = (RErr (PUnrecEof loc exp), s))
     by (apply (drive_mono A Hnorec no_fail fuel _ _ _ H); [discriminate|apply Nat.le_max_l]).
   destruct (Hn F (Nat.le_max_r _ _)) as [s3 H3]. rewrite Hy in H3. rewrite H3 in H1. discriminate.
+Qed.
+(** the parser decides the language: beyond some budget every input is answered, with its derivation
+    tree if it is a sentence and with an error if it is not (actions that do not fail) *)
+Theorem parser_decides w : Forall tok_in_range w ->
+  exists n, forall fuel, n <= fuel ->
+    (exists t s, drive A no_fail fuel (map IOk w) = (ROk t, s) /\ wfp A t (Nt (start_nt A)) /\ yield t = w) \/
+    (exists e s, drive A no_fail fuel (map IOk w) = (RErr e, s) /\ ~ sentence w).
+Proof.
+  intros Hw. destruct valid_proj as (Hs & _ & He & _ & Ht).
+  assert (Hitems : Forall (item_ok A) (map IOk w)).
+  { apply Forall_forall. intros i Hi. apply in_map_iff in Hi as (k & <- & Hk). rewrite Forall_forall in Hw. exact (Hw k Hk). }
+  destruct (parser_terminates A C Hs He Ht Hnorec no_fail (map IOk w) Hitems) as [n Hn].
+  exists n. intros fuel Hf. specialize (Hn fuel Hf).
+  destruct (drive A no_fail fuel (map IOk w)) as [r s] eqn:E. cbn [fst] in Hn.
+  destruct r as [v|e| |].
+  - left. exists v, s. destruct (parse_ok_sound no_fail fuel w v s Hw E) as (H1 & H2 & _). auto.
+  - right. exists e, s. split; [reflexivity|]. intros (t & Hwf & Hy).
+    destruct (parse_ok_complete t Hwf) as [n2 Hn2].
+    destruct (Hn2 (Nat.max fuel n2) (Nat.le_max_r _ _)) as [s2 Hs2]. rewrite Hy in Hs2.
+    rewrite (drive_mono A Hnorec no_fail fuel _ _ _ E ltac:(discriminate) (Nat.max fuel n2) (Nat.le_max_l _ _)) in Hs2.
+    discriminate.
+  - exfalso. exact (no_panic A C Hs He Hnorec no_fail fuel w RPanic s Hw E eq_refl).
+  - exfalso. apply Hn. reflexivity.
 Qed.
 End Main.
 
